@@ -43,7 +43,7 @@ CHECKS.update(EXTRA.get("checks",{}))
 NA=EXTRA.get("not_applicable",{})
 m={"version":1,"setup_cmd":"./setup.sh",
  "hooks":{"guard":"STABILIZE_VERIF","enable":"none needed: all observation is harness-side (sqlite3.connect factory installed in the harness process, SQL triggers on the scratch database, wrapped handler objects); /repo carries no hook","baseline_off_cmd":"cd /repo && /venv/bin/python -m pytest -ra -q -p no:cacheprovider --timeout=900 --continue-on-collection-errors","source_commits":[],"add_only":True},
- "engines":[{"name":"dataflow-tla","path":"spec/DataFlow.tla","serves_properties":["C16"],"kind_free_text":"TLA+ model of the ancestor-output merge and of the fan-in reducers; TLC theorems + prediction of every view; trace validation of recorded task contexts"},{"name":"store-tla","path":"spec/Store.tla","serves_properties":["C07","C19"],"kind_free_text":"TLA+ statement-grain model of optimistic locking + register model of round trips; TLC enumeration; replay on the real store/queue"},{"name":"race-tla","path":"spec/Race.tla","serves_properties":["C04"],"kind_free_text":"TLA+ specification of concurrent handlers at transaction grain + TLC enumeration of interleavings + replay on real threads under a baton scheduler"},{"name":"engine-tla","path":"spec/Engine.tla","serves_properties":sorted(k for k,v in CHECKS.items() if v.get("engine")=="engine-tla"),"kind_free_text":"TLA+ specification of the durable state machine (one action per commit) + TLC model checking + TLC trace validation of executions recorded from the real engine + spec->code replay of counter-examples"}],
+ "engines":[{"name":"queue-tla","path":"spec/Queue.tla","serves_properties":["C08"],"kind_free_text":"TLA+ statement-grain model of the SQLite queue and DLQ; TLC exhaustive + liveness; replay of graph walks on the real queue; trace validation of random histories"},{"name":"dataflow-tla","path":"spec/DataFlow.tla","serves_properties":["C16"],"kind_free_text":"TLA+ model of the ancestor-output merge and of the fan-in reducers; TLC theorems + prediction of every view; trace validation of recorded task contexts"},{"name":"store-tla","path":"spec/Store.tla","serves_properties":["C07","C19"],"kind_free_text":"TLA+ statement-grain model of optimistic locking + register model of round trips; TLC enumeration; replay on the real store/queue"},{"name":"race-tla","path":"spec/Race.tla","serves_properties":["C04"],"kind_free_text":"TLA+ specification of concurrent handlers at transaction grain + TLC enumeration of interleavings + replay on real threads under a baton scheduler"},{"name":"engine-tla","path":"spec/Engine.tla","serves_properties":sorted(k for k,v in CHECKS.items() if v.get("engine")=="engine-tla"),"kind_free_text":"TLA+ specification of the durable state machine (one action per commit) + TLC model checking + TLC trace validation of executions recorded from the real engine + spec->code replay of counter-examples"}],
  "checks":[CHECKS[p["id"]] for p in props if p["id"] in CHECKS],
  "not_applicable":[{"property_id":p["id"],"reason":NA.get(p["id"],"check under construction in this round (see DESIGN.md 12 roadmap); not claimed yet")} for p in props if p["id"] not in CHECKS],
  "notes":"Model-based verification with explicit TLA+ specifications (spec/*.tla). quick/thorough commands exit 0 / 1 (VIOLATION line) / 2 (machinery failure, no verdict). known_findings.json lists genuine defects recorded rather than repaired; checks print KNOWN-FINDING lines for them and still report anything else."}
